@@ -120,3 +120,28 @@ Definition known_F16 (D : dialect) : bool :=
   seps_ok D && str_eqb (d_fmt D) GTF && negb (str_eqb (d_kvsep D) [SP] && d_quoted D)
   && (str_eqb (d_kvsep D) [EQ] || str_eqb (d_kvsep D) [SP]).
 
+
+(* ---- the line as the WRITER of the file produced it (independent of _reconstruct): the
+   rendering the property's "consistent dialect" speaks about.  C07/C01 state that parsing
+   inverts this function and that printing reproduces it. ---- *)
+Definition render_item (st : style) (kv : str * list str) : str :=
+  let '(k, vs) := kv in
+  match st_kv st with
+  | KvEq => match vs with [] => k | _ => k ++ [EQ] ++ join [COMMA] (map (quote to_quote) vs) end
+  | KvSpaceQuoted => k ++ [SP; DQ] ++ join [COMMA] vs ++ [DQ]
+  | KvSpaceBare => match vs with [] => k | _ => k ++ [SP] ++ join [COMMA] vs end
+  end.
+
+Definition style_items (st : style) (a : attrs) : attrs := if st_repeated st then expand_repeated a else a.
+
+Definition render_attrs (st : style) (a : attrs) : str :=
+  match a with
+  | [] => []
+  | _ => join (st_fsep st) (map (render_item st) (style_items st a)) ++ (if st_trailing st then [SEMI] else [])
+  end.
+
+Definition render_fields (st : style) (f : feature) : list str :=
+  [f_seqid f; f_source f; f_ftype f; coord_str (f_start f); coord_str (f_end f);
+   f_score f; f_strand f; f_frame f; render_attrs st (f_attrs f)] ++ f_extra f.
+
+Definition render_line (st : style) (f : feature) : str := join [TAB] (render_fields st f).
